@@ -1322,7 +1322,7 @@ class VMNetwork(object):
                 next_mask = (
                     vms[i + 1]
                     .params.object_params(vpns[i + 1])
-                    .get("vpnconn_remote_mask")
+                    .get("vpnconn_remote_netmask")
                 )
             logging.debug(
                 "Retrieved previous network %s/%s and next network %s/%s",
